@@ -51,6 +51,9 @@ chk("C17", "fault_enumeration", "deterministic simulation with storage fault inj
 chk("C10", "exploration", T + "export/import steps inside lock-step histories (stream vs R2 post-order, imported tree vs R1/R2, future hashes); simulated faulty exporter->importer channel and generated hostile node sequences against both importers",
     "Fidelity: export of every kind of retained version (empty, single leaf, inherited root, >10 000 nodes) through both codecs, imported tree audited and continued. Totality: mutated and generated ExportNode sequences fed to Add/Commit; no panic/hang, nothing visible unless Commit succeeded, committed imports internally consistent.", N + " Import versions capped at 10^6 (allocation of version+1 nonces).", "DESIGN.md §5 C10")
 
+chk("C06", "exploration", "deterministic simulation of schedules: writer, readers and iavl's own pruner/exporter goroutines run as tasks of a seeded cooperative scheduler (guarded hooks in iavl, lock-free storage calls and operation boundaries are yield points, simulated clock for the pruner's sleeps); race-detector build whose hand-off is hidden from the detector; every read compared with the precomputed contents of its version",
+    "Seeded search over schedules x histories x {cache 0/small/large} x {fast index on/off} x {sync, async pruning, SetCommitting bracket}. Oracles: exact contents/proofs/export stream per version, no data race (happens-before detector on a serialised execution whose scheduler hand-offs create no happens-before edges), pinned versions not deleted, no panic, no deadlock. Recorded schedules are explicit, replayable and minimised.", "Preemption only at yield points (races between yield points are still found by the HB detector). Readers only hold versions the writer does not prune (lease registry). " + N, "DESIGN.md §5 C06")
+
 NOT_YET = {
 }
 
